@@ -329,11 +329,21 @@ func (sp *Specs) parseFile(repo, fn string) error {
 			if !strings.HasPrefix(r2, "\"") {
 				return errf("site must be quoted")
 			}
-			end := strings.Index(r2[1:], "\":")
+			end := -1
+			for i := 1; i+1 < len(r2); i++ {
+				if r2[i] == '\\' {
+					i++
+					continue
+				}
+				if r2[i] == '"' && r2[i+1] == ':' {
+					end = i - 1
+					break
+				}
+			}
 			if end < 0 {
 				return errf("site must be followed by a colon")
 			}
-			sa := &SiteAssert{Label: label, Site: r2[1 : 1+end], Text: strings.TrimSpace(r2[end+3:])}
+			sa := &SiteAssert{Label: label, Site: strings.ReplaceAll(r2[1:1+end], "\\\"", "\""), Text: strings.TrimSpace(r2[end+3:])}
 			cur.Sites = append(cur.Sites, sa)
 			lastClause = nil
 			lastSite = sa
